@@ -1,40 +1,11 @@
 (* C12 — what the code as it is (cur_code) violates: witnesses evaluated by vm_compute (each one is
    replayed on the real engine by the scripted cases of harness/c12/gen.go), the strongest statements
    that remain true for it, and the remaining theorems (primary keys, failed statements, INSERT). *)
-From V Require Import SQLCons.Model SQLCons.Basics SQLCons.Steps SQLCons.Frame SQLCons.RowInv SQLCons.Unique.
+From V Require Import SQLCons.Model SQLCons.Spec SQLCons.Basics SQLCons.Steps SQLCons.Frame SQLCons.RowInv SQLCons.Unique.
 From Coq Require Import ZArith Lia.
 From Coq Require Import ZifyN ZifyNat ZifyBool.
 Open Scope N_scope.
 
-Definition g_plain : cfg := mkCfg false false 3 false.
-Definition g_nn : cfg := mkCfg false true 3 false.
-Definition g_ck : cfg := mkCfg false false 3 true.
-Definition ins1 (k v : Z) : action := AAuto [SIns MInsert [(Some (VInt k), VInt v, VNull)]].
-
-(* CREATE UNIQUE INDEX ON t(v); INSERT (1,10); UPDATE t SET v=20 WHERE id=1; INSERT (2,10); INSERT (3,10) *)
-Definition wit_unique : list event :=
-  [(0, ADdl true); (0, ins1 1 10); (0, AAuto [SUpd (WId 1) true (VInt 20)]); (0, ins1 2 10); (0, ins1 3 10)].
-(* INSERT (1,5); INSERT (2,10); INSERT (3,10); DELETE WHERE id=1; CREATE UNIQUE INDEX ON t(v) *)
-Definition wit_create : list event :=
-  [(0, ins1 1 5); (0, ins1 2 10); (0, ins1 3 10); (0, AAuto [SDel (WId 1)]); (0, ADdl true)].
-(* the same duplicate through two concurrent sessions: no read conflict at either commit *)
-Definition wit_unique_conc : list event :=
-  [(0, ADdl true); (0, ins1 1 10); (0, AAuto [SUpd (WId 1) true (VInt 20)]);
-   (0, ABegin); (1, ABegin);
-   (0, AStmt (SIns MInsert [(Some (VInt 2), VInt 10, VNull)]));
-   (1, AStmt (SIns MInsert [(Some (VInt 3), VInt 10, VNull)]));
-   (0, ACommit); (1, ACommit)].
-(* NOT NULL: INSERT (1,10); UPDATE t SET v = NULL WHERE id = 1 *)
-Definition wit_nn_update : list event := [(0, ins1 1 10); (0, AAuto [SUpd (WId 1) true VNull])].
-Definition wit_nn_conflict : list event :=
-  [(0, ins1 1 10); (0, AAuto [SIns (MDoUpdate true VNull) [(Some (VInt 1), VInt 3, VNull)]])].
-(* CHECK (v >= 0): INSERT (1,10); INSERT (1,3) ON CONFLICT DO UPDATE SET v = -5 *)
-Definition wit_ck_conflict : list event :=
-  [(0, ins1 1 10); (0, AAuto [SIns (MDoUpdate true (VInt (-5))) [(Some (VInt 1), VInt 3, VNull)]])].
-
-Definition dup_rows (c : cstate) : Prop :=
-  c_uidx c = true /\ exists k1 r1 k2 r2, In (k1, r1) (live_rows c) /\ In (k2, r2) (live_rows c) /\
-                                        r_v r1 = r_v r2 /\ k1 <> k2.
 Lemma dup_not_unique c : dup_rows c -> ~ unique_ok c.
 Proof. intros (Hu & k1 & r1 & k2 & r2 & H1 & H2 & Hv & Hn) U. apply Hn. eapply U; eauto. Qed.
 
@@ -126,7 +97,6 @@ Proof.
 Qed.
 
 (* ---------- uniqueness for the code as it is: where the first-key lookup is not fooled ---------- *)
-Definition fix_unique_only : fixes := mkFix true false false.
 Lemma unique_partial g evs :
   s_c (run g cur_code evs) = s_c (run g fix_unique_only evs) -> unique_ok (s_c (run g cur_code evs)).
 Proof. intros ->. apply unique_fixed. reflexivity. Qed.
